@@ -351,6 +351,16 @@ package domain
 //@   havoc_after "db.idx.mu.Lock()" &db.idx.mu
 //@   havoc_after "db.idx.mu.Lock()" &db.idx.persistHead
 //@   assume_after "db.idx.mu.Lock()" WF(db.idx.mu.pointers) && len(db.idx.mu.pointers) >= n0 && 0 <= db.idx.persistHead && db.idx.persistHead <= len(db.idx.mu.pointers) && (exists i int :: 0 <= i && i < len(db.idx.mu.pointers) && db.idx.mu.pointers[i] == start) && (exists j int :: 0 <= j && j < len(db.idx.mu.pointers) && db.idx.mu.pointers[j] == end)
+//@   let_after "db.idx.mu.Lock()" ptrs0 []pointer = db.idx.mu.pointers
+//@   # "A delete removes exactly the range" at the level of the index: the pointers before the start
+//@   # domain and after the end domain are kept in order, the domains in between are dropped, and
+//@   # what is left of the two boundary domains are the first startOffset bytes of the start domain
+//@   # (up to the snapped tr.Start) and the last endOffset bytes of the end domain (from tr.End)
+//@   assert_before "db.idx.persistHead = min(db.idx.persistHead, startDomain)" len(db.idx.mu.pointers) == len(ptrs0) - (endDomain - startDomain + 1) + __ite(startOffset != 0, 1, 0) + __ite(endOffset != 0, 1, 0)
+//@   assert_before "db.idx.persistHead = min(db.idx.persistHead, startDomain)" forall i int :: 0 <= i && i < startDomain ==> db.idx.mu.pointers[i] == ptrs0[i]
+//@   assert_before "db.idx.persistHead = min(db.idx.persistHead, startDomain)" forall i int :: endDomain < i && i < len(ptrs0) ==> db.idx.mu.pointers[i - (endDomain - startDomain + 1) + __ite(startOffset != 0, 1, 0) + __ite(endOffset != 0, 1, 0)] == ptrs0[i]
+//@   assert_before "db.idx.persistHead = min(db.idx.persistHead, startDomain)" startOffset != 0 ==> db.idx.mu.pointers[startDomain] == pointer{TimeRange: telem.TimeRange{Start: start.Start, End: tr.Start}, fileKey: start.fileKey, offset: start.offset, size: uint32(startOffset)}
+//@   assert_before "db.idx.persistHead = min(db.idx.persistHead, startDomain)" endOffset != 0 ==> db.idx.mu.pointers[startDomain + __ite(startOffset != 0, 1, 0)] == pointer{TimeRange: telem.TimeRange{Start: tr.End, End: end.End}, fileKey: end.fileKey, offset: end.offset + end.size - uint32(endOffset), size: uint32(endOffset)}
 //@   # Guarantee: after the re-location the positions used for the rewrite hold exactly those pointers
 //@   assert_before "ok, err := validateDelete(" db.idx.mu.pointers[startDomain] == start && db.idx.mu.pointers[endDomain] == end
 //@   loop 0 invariant 0 <= startDomain && startDomain <= i && endDomain < len(db.idx.mu.pointers)
